@@ -168,6 +168,10 @@ type bufferedSectionWriter struct {
 	doneCh chan struct{}
 	reqCh  chan ioBuf
 	resCh  chan ioBuf
+
+	// lastWriteErr is the error of the most recent failed write, set by
+	// the writer goroutine and read after that goroutine is done.
+	lastWriteErr error
 }
 
 type ioBuf struct {
@@ -184,6 +188,19 @@ func newBufferedSectionWriter(w io.WriterAt, begPos, maxBytes int64,
 	doneCh := make(chan struct{})
 	reqCh := make(chan ioBuf)
 	resCh := make(chan ioBuf)
+
+	rv := &bufferedSectionWriter{
+		w:   w,
+		beg: begPos,
+		cur: begPos,
+		max: maxBytes,
+		buf: make([]byte, bufSize),
+
+		stopCh: stopCh,
+		doneCh: doneCh,
+		reqCh:  reqCh,
+		resCh:  resCh,
+	}
 
 	go func() {
 		defer close(doneCh)
@@ -204,27 +221,25 @@ func newBufferedSectionWriter(w io.WriterAt, begPos, maxBytes int64,
 			if ok {
 				buf, pos = req.buf, req.pos
 				if len(buf) > 0 {
-					nBytes, err := w.WriteAt(buf, pos)
+					var nBytes int
+					nBytes, err = w.WriteAt(buf, pos)
+					if err == nil && nBytes != len(buf) {
+						err = io.ErrShortWrite
+					}
 					if err == nil && s != nil {
 						s.reportBytesWritten(uint64(nBytes))
+					}
+					if err != nil {
+						// NOTE: Also kept for Stop(), which is how the
+						// error of the last write gets noticed.
+						rv.lastWriteErr = err
 					}
 				}
 			}
 		}
 	}()
 
-	return &bufferedSectionWriter{
-		w:   w,
-		beg: begPos,
-		cur: begPos,
-		max: maxBytes,
-		buf: make([]byte, bufSize),
-
-		stopCh: stopCh,
-		doneCh: doneCh,
-		reqCh:  reqCh,
-		resCh:  resCh,
-	}
+	return rv
 }
 
 // Offset returns the byte offset into the file where the
@@ -280,6 +295,11 @@ func (b *bufferedSectionWriter) Stop() error {
 		close(b.reqCh)
 		<-b.doneCh
 		b.stopCh = nil
+
+		// The writer goroutine is done, so reading what it left is safe.
+		if b.err == nil {
+			b.err = b.lastWriteErr
+		}
 	}
 	return b.err
 }
